@@ -89,8 +89,15 @@ func TestVerifC07(t *testing.T) {
 	defer func(c uintptr) {
 		earlyReserveLastUsed = c
 		mapFn = Map
+		unmapFn = Unmap
 		earlyReserveRegionFn = EarlyReserveRegion
 	}(earlyReserveLastUsed)
+	// there are no page tables behind this run: an unmap request (the shipped region functions make none) is
+	// counted and answered with success instead of walking tables that do not exist
+	unmapFn = func(mm.Page) *kernel.Error {
+		run.Count("unmap_requests_seen_by_the_seam", 1)
+		return nil
+	}
 
 	n := run.N(600, 30000)
 	run.Cases(n, func(c *vlib.Case) {
